@@ -58,9 +58,66 @@ def gen_case(rng, small=False):
         mask = np.array([[rng.random() < 0.25 for _ in range(nx)] for _ in range(ny)])
         if mask.all():
             mask[0, 0] = False
+    if thr2d is not None and rng.random() < 0.35:   # undefined / infinite threshold pixels (e.g. an RMS map border)
+        for _ in range(rng.randint(1, 2)):
+            thr2d[rng.randrange(ny), rng.randrange(nx)] = rng.choice([np.nan, np.nan, np.inf, -np.inf])
     conn = rng.choice([4, 8])
-    npix = rng.choice([1, 1, 2, 3, 4, ny * nx])
-    return dict(data=data, thr=thr2d if thr2d is not None else thr, mask=mask, conn=conn, npix=npix, kind=kind)
+    case = dict(data=data, thr=thr2d if thr2d is not None else thr, mask=mask, conn=conn, npix=1, kind=kind)
+    # npixels near the decision boundaries: component sizes and bounding-box areas (+-1), or arbitrary
+    cand = [1, 1, 2, 3, 4, ny * nx]
+    for pix in components(case):
+        ys, xs = [p[0] for p in pix], [p[1] for p in pix]
+        bb = (max(ys) - min(ys) + 1) * (max(xs) - min(xs) + 1)
+        cand += [len(pix), len(pix) + 1, max(1, len(pix) - 1), bb, bb + 1, max(1, bb - 1)]
+    case['npix'] = rng.choice(cand)
+    # the same numbers in another dtype (all values are small integers)
+    if rng.random() < 0.25 and np.isfinite(data).all():
+        case['dtype'] = rng.choice(['int16', 'int32', 'int64', 'float32'])
+    return case
+
+
+def gen_shapes_case(rng):
+    """Larger frames with irregular components (L, plus, ring, diagonal streak, staircase) placed so that
+    bounding boxes overlap or nest without the components touching."""
+    ny, nx = rng.randint(6, 12), rng.randint(6, 12)
+    data = np.zeros((ny, nx))
+    shapes = {
+        'L': [(0, 0), (1, 0), (2, 0), (2, 1), (2, 2)],
+        'L2': [(0, 2), (1, 2), (2, 2), (2, 1), (2, 0)],
+        'plus': [(0, 1), (1, 0), (1, 1), (1, 2), (2, 1)],
+        'ring': [(0, 0), (0, 1), (0, 2), (0, 3), (1, 0), (1, 3), (2, 0), (2, 3), (3, 0), (3, 1), (3, 2), (3, 3)],
+        'diag': [(0, 0), (1, 1), (2, 2), (3, 3)],
+        'stair': [(0, 0), (0, 1), (1, 1), (1, 2), (2, 2), (2, 3)],
+        'dot': [(0, 0)],
+        'bar': [(0, 0), (0, 1), (0, 2), (0, 3), (0, 4)],
+        'blob': [(0, 0), (0, 1), (0, 2), (1, 0), (1, 1), (1, 2), (2, 0), (2, 1), (2, 2), (3, 1)],
+    }
+    for _ in range(rng.randint(2, 5)):
+        name = rng.choice(list(shapes))
+        pts = shapes[name]
+        if rng.random() < 0.5:
+            pts = [(x, y) for (y, x) in pts]
+        if rng.random() < 0.5:
+            pts = [(-y, x) for (y, x) in pts]
+        oy, ox = rng.randint(-1, ny - 1), rng.randint(-1, nx - 1)
+        v = rng.randint(2, 6)
+        for (y, x) in pts:
+            yy, xx = oy + y - min(p[0] for p in pts), ox + x - min(p[1] for p in pts)
+            if 0 <= yy < ny and 0 <= xx < nx:
+                data[yy, xx] = v
+    thr = float(rng.choice([0, 1, 1, 2]))
+    mask = None
+    if rng.random() < 0.2:
+        mask = np.array([[rng.random() < 0.1 for _ in range(nx)] for _ in range(ny)])
+    conn = rng.choice([4, 8])
+    case = dict(data=data, thr=thr, mask=mask, conn=conn, npix=1, kind='shapes')
+    cand = [1, 2]
+    for pix in components(case):
+        ys, xs = [p[0] for p in pix], [p[1] for p in pix]
+        bb = (max(ys) - min(ys) + 1) * (max(xs) - min(xs) + 1)
+        cand += [len(pix), len(pix) + 1, bb, bb + 1, bb + 2, 2 * bb]
+    case['npix'] = rng.choice(cand)
+    return case
 
 
 def run_impl(case):
@@ -68,7 +125,8 @@ def run_impl(case):
     from photutils.utils.exceptions import NoDetectionsWarning
     with warnings.catch_warnings(record=True) as w:
         warnings.simplefilter('always')
-        segm = detect_sources(case['data'].copy(), case['thr'] if np.isscalar(case['thr']) else case['thr'].copy(),
+        data = case['data'].copy() if not case.get('dtype') else case['data'].astype(case['dtype'])
+        segm = detect_sources(data, case['thr'] if np.isscalar(case['thr']) else case['thr'].copy(),
                               case['npix'], connectivity=case['conn'],
                               mask=None if case['mask'] is None else case['mask'].copy())
     warned = any(issubclass(x.category, NoDetectionsWarning) for x in w)
@@ -101,16 +159,58 @@ def to_coq(case, segm):
                 [_val(v) for v in thr.ravel()], [bool(m) for m in mask.ravel()], exp))
 
 
-def oracle(case, segm):
-    """Independent statement of the property on the implementation's output
-    (union-find in Python), used for the violation search."""
+def gen_intruder_case(rng):
+    """A small irregular component whose bounding box (area < npixels) also holds a pixel of a large,
+    qualifying component that does not touch it; rotated/flipped at random."""
+    conn = rng.choice([4, 8])
+    small = rng.choice([
+        [(0, 0), (1, 0), (2, 0), (2, 1), (2, 2)],            # L
+        [(0, 0), (1, 0), (2, 0), (3, 0), (3, 1), (3, 2)],    # tall L
+        [(2, 0), (2, 1), (2, 2), (1, 0)],                    # low L
+        [(1, 0), (2, 0), (2, 1), (2, 2), (2, 3)],            # wide L
+        [(0, 0), (1, 1), (2, 2)] if conn == 8 else [(0, 0), (1, 0), (2, 0), (2, 1)],
+        [(2, 0), (2, 1), (1, 1), (2, 2), (2, 3)],            # T lying down
+    ])
+    h = max(p[0] for p in small) + 1
+    w = max(p[1] for p in small) + 1
+    bb = h * w
+    npix = bb + rng.randint(1, 3)
+
+    def adjacent(a, b):
+        dy, dx = abs(a[0] - b[0]), abs(a[1] - b[1])
+        return (dy + dx == 1) if conn == 4 else (max(dy, dx) == 1)
+    top = [(0, x) for x in range(w) if (0, x) not in small and not any(adjacent((0, x), q) for q in small)]
+    bw = (npix + 1) // 2 + rng.randint(0, 1)
+    ny, nx = h + 3 + rng.randint(0, 2), max(w, bw) + rng.randint(1, 3)
+    data = np.zeros((ny, nx))
+    oy, ox = 3, rng.randint(0, nx - w)
+    v1, v2 = rng.randint(2, 5), rng.randint(2, 5)
+    for (y, x) in small:
+        data[oy + y, ox + x] = v1
+    if top:
+        cx = ox + rng.choice(top)[1]
+        data[oy, cx] = v2
+        data[oy - 1, cx] = v2
+        x0 = max(0, min(cx - rng.randint(0, bw - 1), nx - bw))
+        data[oy - 3:oy - 1, x0:x0 + bw] = v2
+        if not (x0 <= cx < x0 + bw):
+            data[oy - 2, min(cx, x0):max(cx, x0 + bw)] = v2
+    k = rng.randint(0, 3)
+    data = np.rot90(data, k).copy()
+    if rng.random() < 0.5:
+        data = data[:, ::-1].copy()
+    return dict(data=data, thr=float(rng.choice([0, 1])), mask=None, conn=conn, npix=npix, kind='intruder')
+
+
+def components(case):
+    """Connected components (lists of pixels, raster order of first pixel) of the unmasked pixels
+    strictly above threshold — plain Python flood fill, independent of scipy and of the Coq model."""
     d = case['data']
     ny, nx = d.shape
-    thr = case['thr']
     with np.errstate(invalid='ignore'):
-        fg = d > thr
+        fg = d > case['thr']
     if case['mask'] is not None:
-        fg &= ~case['mask']
+        fg = fg & ~case['mask']
     lab = np.zeros(d.shape, int)
     cur = 0
     comps = []
@@ -132,9 +232,14 @@ def oracle(case, segm):
                                     lab[yy, xx] = cur
                                     stack.append((yy, xx))
                 comps.append(pix)
-    out = np.zeros(d.shape, int)
+    return comps
+
+
+def oracle(case, segm):
+    """Independent statement of the property on the implementation's output, used for the violation search."""
+    out = np.zeros(case['data'].shape, int)
     k = 0
-    for pix in comps:
+    for pix in components(case):
         if len(pix) >= case['npix']:
             k += 1
             for (y, x) in pix:
@@ -158,23 +263,30 @@ def describe(case):
     return {'data': np.where(np.isnan(case['data']), None, case['data']).tolist() if False else
             [[(None if np.isnan(v) else ('inf' if v == np.inf else ('-inf' if v == -np.inf else v))) for v in r]
              for r in case['data']],
-            'threshold': case['thr'] if np.isscalar(case['thr']) else case['thr'].tolist(),
+            'threshold': case['thr'] if np.isscalar(case['thr']) else
+            [[(None if np.isnan(v) else ('inf' if v == np.inf else ('-inf' if v == -np.inf else v))) for v in r]
+             for r in case['thr']],
+            'dtype': case.get('dtype'),
             'mask': None if case['mask'] is None else case['mask'].astype(int).tolist(),
             'connectivity': case['conn'], 'npixels': int(case['npix'])}
 
 
 def run(ctx):
     ctx.build(FILES)
-    ctx.cov['rule'] = ('random small images (binary, plateaus, ramps, ties at threshold, blobs, diagonal contacts, '
-                       'NaN/inf, 2-D thresholds, masks) x connectivity x npixels; thorough adds all binary images up '
+    ctx.cov['rule'] = ('random small images (binary, plateaus, ramps, ties at threshold, blobs, diagonal contacts, NaN/inf data, 2-D '
+                       'thresholds incl. NaN/inf entries, masks, integer/float32 dtypes) and larger frames of irregular '
+                       'components with overlapping bounding boxes, x connectivity x npixels drawn near component sizes '
+                       'and bounding-box areas; thorough adds all binary images up '
                        'to 3x4/4x3; non-trivial = at least one pixel above threshold; distinct = distinct '
                        '(data, threshold, mask, conn, npixels)')
     ctx.assumptions += ['scipy.ndimage.label / find_objects are not modelled separately: the whole of '
                         'detect_sources (including them) is compared with the proved model on every case']
-    ctx.cov['partial_clauses'] = ['detect_threshold with sigma-clipped background/error: only the given '
-                                  'background/error form (background + nsigma*error) is checked, numerically']
+    ctx.cov['partial_clauses'] = ['detect_threshold is checked numerically against background + nsigma*error (given or '
+                                  'sigma-clipped mean/std estimates, all image dtypes); no Coq model of it']
     n = 400 if ctx.tier == 'quick' else 3000
     cases = [gen_case(ctx.rng, small=(i % 3 == 0)) for i in range(n)]
+    cases += [gen_shapes_case(ctx.rng) for _ in range(n // 2)]
+    cases += [gen_intruder_case(ctx.rng) for _ in range(n // 8)]
     if ctx.tier == 'thorough':
         ex = list(exhaustive_cases())
         ctx.stat('generator', 'exhaustive_binary', len(ex))
@@ -186,7 +298,7 @@ def run(ctx):
         impl.append(segm)
         ctx.stat('kinds', c['kind'])
         ctx.stat('result', 'None' if segm is None else 'segments')
-        nontrivial = bool(np.nansum(np.where(np.isfinite(c['data']), c['data'] > c['thr'], c['data'] == np.inf)) > 0)
+        nontrivial = len(components(c)) > 0
         ctx.count_case(describe(c), nontrivial)
         # property clauses that need no model
         if (segm is None) != warned:
@@ -211,24 +323,58 @@ def run(ctx):
         else:
             ctx.violation('correspondence:C04_Model.check_case', 'model and implementation disagree on derived '
                           'attributes', detail, found_input=False)
-    # detect_threshold = background + nsigma * error (pixel-wise), exact lattice
+    # detect_threshold = background + nsigma * error (pixel-wise): every image dtype, scalar / 2-D background and
+    # error, dyadic and non-dyadic values (float64 result expected whatever the image dtype), masks, and the
+    # estimated form (sigma-clipped mean / std of the unmasked data)
+    from astropy.stats import SigmaClip
     from photutils.segmentation import detect_threshold
-    for _ in range(50 if ctx.tier == 'quick' else 400):
+    nthr = 80 if ctx.tier == 'quick' else 600
+    for it in range(nthr):
         ny, nx = ctx.rng.randint(1, 6), ctx.rng.randint(1, 6)
-        data = np.array([[float(ctx.rng.randint(-5, 5)) for _ in range(nx)] for _ in range(ny)])
-        bkg = np.array([[ctx.rng.randint(-8, 8) / 4 for _ in range(nx)] for _ in range(ny)])
-        err = np.array([[ctx.rng.randint(0, 8) / 4 for _ in range(nx)] for _ in range(ny)])
-        ns = ctx.rng.choice([0.5, 1.0, 2.0, 3.0])
-        b = bkg if ctx.rng.random() < 0.7 else float(bkg[0, 0])
-        e = err if ctx.rng.random() < 0.7 else float(err[0, 0])
-        got = detect_threshold(data, ns, background=b, error=e)
-        want = np.broadcast_to(b, data.shape) + ns * np.broadcast_to(e, data.shape)
-        ctx.count_case(['thr', data.tolist(), np.asarray(b).tolist(), np.asarray(e).tolist(), ns])
-        if got.shape != data.shape or not np.array_equal(got, want):
-            ctx.violation('detect_threshold:formula', 'detect_threshold != background + nsigma*error',
-                          {'data': data.tolist(), 'background': np.asarray(b).tolist(),
-                           'error': np.asarray(e).tolist(), 'nsigma': ns, 'got': got.tolist()})
-    ctx.stat('generator', 'detect_threshold_cases', 50 if ctx.tier == 'quick' else 400)
+        dtype = ctx.rng.choice(['float64', 'float64', 'float32', 'int16', 'uint16', 'int32', 'int64'])
+        lo = 0 if dtype == 'uint16' else -5
+        data = np.array([[ctx.rng.randint(lo, 9) for _ in range(nx)] for _ in range(ny)]).astype(dtype)
+        div = ctx.rng.choice([4, 4, 10, 3])     # dyadic (exact) or not
+        bkg = np.array([[ctx.rng.randint(-8, 8) / div for _ in range(nx)] for _ in range(ny)])
+        err = np.array([[ctx.rng.randint(0, 8) / div for _ in range(nx)] for _ in range(ny)])
+        ns = ctx.rng.choice([0.5, 1.0, 2.0, 3.0, 1.5])
+        form = ctx.rng.choice(['given', 'given', 'given', 'bkg-only', 'err-only', 'estimated'])
+        b = None if form in ('err-only', 'estimated') else (bkg if ctx.rng.random() < 0.7 else float(bkg[0, 0]))
+        e = None if form in ('bkg-only', 'estimated') else (err if ctx.rng.random() < 0.7 else float(err[0, 0]))
+        mask = None
+        if form != 'given' and ctx.rng.random() < 0.4 and ny * nx > 2:
+            mask = np.array([[ctx.rng.random() < 0.2 for _ in range(nx)] for _ in range(ny)])
+            if mask.all():
+                mask[0, 0] = False
+        with warnings.catch_warnings():
+            warnings.simplefilter('ignore')
+            got = detect_threshold(data.copy(), ns, background=b.copy() if isinstance(b, np.ndarray) else b,
+                                   error=e.copy() if isinstance(e, np.ndarray) else e, mask=None if mask is None else mask.copy())
+            if b is None or e is None:   # the documented estimate: sigma-clipped (3 sigma, 10 iterations) mean / std
+                dd = np.ma.MaskedArray(data.astype(float), mask) if mask is not None else data.astype(float)
+                clipped = SigmaClip(sigma=3.0, maxiters=10)(dd, masked=False, return_bounds=False, copy=True)
+                wb = float(np.nanmean(clipped)) if b is None else b
+                we = float(np.nanstd(clipped)) if e is None else e
+            else:
+                wb, we = b, e
+        want = np.broadcast_to(wb, data.shape) + ns * np.broadcast_to(we, data.shape)
+        ctx.count_case(['thr', dtype, form, data.tolist(), np.asarray(wb).tolist(), np.asarray(we).tolist(), ns])
+        ctx.stat('detect_threshold', f'{form}/{dtype}')
+        got = np.asarray(got)
+        exact = (div == 4 and form == 'given')
+        ok = got.shape == data.shape and (np.array_equal(got, want) if exact else
+                                          np.allclose(got, want, equal_nan=True,
+                                                      # estimates from float32 data are float32-precise
+                                                      rtol=1e-5 if (dtype == 'float32' and form != 'given') else 1e-12,
+                                                      atol=1e-5 if (dtype == 'float32' and form != 'given') else 1e-12))
+        if not ok:
+            ctx.violation('detect_threshold:formula', 'detect_threshold != background + nsigma*error pixel-wise',
+                          {'data': data.tolist(), 'dtype': dtype, 'form': form,
+                           'background': None if b is None else np.asarray(b).tolist(),
+                           'error': None if e is None else np.asarray(e).tolist(), 'nsigma': ns,
+                           'mask': None if mask is None else mask.astype(int).tolist(),
+                           'got': got.tolist(), 'want': want.tolist()})
+    ctx.stat('generator', 'detect_threshold_cases', nthr)
     # SourceFinder(deblend=False) equals detect_sources
     from photutils.segmentation import SourceFinder, detect_sources
     for c in cases[:60]:
@@ -249,7 +395,10 @@ def replay(obj):
     c = r.get('case', r)
     case = dict(data=np.array([[np.nan if v is None else (np.inf if v == 'inf' else (-np.inf if v == '-inf' else v))
                                 for v in row] for row in c['data']], float),
-                thr=c['threshold'] if np.isscalar(c['threshold']) else np.array(c['threshold'], float),
+                thr=c['threshold'] if np.isscalar(c['threshold']) else
+                np.array([[np.nan if v is None else (np.inf if v == 'inf' else (-np.inf if v == '-inf' else v))
+                           for v in row] for row in c['threshold']], float),
+                dtype=c.get('dtype'),
                 mask=None if c['mask'] is None else np.array(c['mask'], bool),
                 conn=c['connectivity'], npix=c['npixels'])
     segm, _ = run_impl(case)
